@@ -1,5 +1,10 @@
 import NavisModel.Proofs.HeapLemmas
+import NavisModel.Proofs.HeapTraceLemmas
 import NavisModel.Gen.InplaceSpec
+import NavisModel.Proofs.HeapDeepLemmas
+import NavisModel.Model.InputWrites
+import NavisModel.Gen.InputWrites
+import NavisModel.Gen.CopySpec
 /-!
 # C03 — inputs are never modified unless `inplace=True`; inplace is equivalent
 
@@ -214,8 +219,8 @@ write through an alias of the original, then running it (every write a write to 
 value function) without `inplace` leaves every cell of the old store unchanged. -/
 theorem okTrace_frame (f : Abs → Int) (t : List Ev) (s : Store) (x : Ref) (h : okTrace t = true) :
     Ext s (runTrace f t s x false).1 := by
-  simp only [okTrace, Bool.and_eq_true, Bool.not_eq_true'] at h
-  exact runTrace_ext f s x t h.1.1 h.1.2
+  obtain ⟨h1, h2, h3, _, _⟩ := okTrace_parts h
+  exact runTrace_ext f s x t h1 h2 h3
 
 /-- **The premise is necessary.** If some write precedes the guard, the input's node table *is* changed
 (for the always-changing write `bump`), whatever follows. -/
@@ -224,6 +229,44 @@ theorem write_before_guard_violates (t : List Ev) (s : Store) (x r : Ref) (hn : 
     (runTrace bump t s x false).1.rd r ≠ s.rd r := by
   have := runTrace_violation s x r hn hr t h
   omega
+
+/-- **The result of a non-inplace call is a fresh object.**  If the trace passes `okTrace` and the function copies
+by itself (a `guard` on the path; pure delegations are covered by the callee's row), the object handed back was
+allocated during the call: it is none of the objects that existed before, in particular not the input.  This is the
+premise `result ≠ input` of `no_leak` / `inplace_identity`, read off the source text. -/
+theorem okTrace_result_fresh (f : Abs → Int) (t : List Ev) (s : Store) (x : Ref) (h : okTrace t = true)
+    (hg : t.contains .guard = true) :
+    s.objs.length ≤ (runTrace f t s x false).2 ∧ (x < s.objs.length → (runTrace f t s x false).2 ≠ x) := by
+  obtain ⟨_, _, h3, _, _⟩ := okTrace_parts h
+  have := runTrace_fresh f x s.objs.length t (s, x) h3 (Nat.le_refl _) (.inr hg)
+  exact ⟨this, fun hx => Nat.ne_of_gt (Nat.lt_of_lt_of_le hx this)⟩
+
+/-- **The premise is necessary (identity).**  A path that ends in `return <input>` — the early "nothing to do"
+return placed before `if not inplace: x = x.copy()` — hands the caller the input object itself, whatever `inplace`
+says; `okTrace` rejects every trace containing it. -/
+theorem retIn_returns_input (f : Abs → Int) (t : List Ev) (s : Store) (x : Ref) (ip : Bool) :
+    (runTrace f (t ++ [.retIn]) s x ip).2 = x ∧ okTrace (t ++ [.retIn]) = false := by
+  refine ⟨runTrace_snoc_retIn f t s x ip, ?_⟩
+  simp [okTrace]
+
+/-- **inplace equivalence, read off the source text.**  If the trace passes `okTrace`, then for every separated
+receiver the in-place run and the copying run of the trace end in the same observable state (the state of the very
+object passed in vs. the state of the object handed back). -/
+theorem okTrace_inplace_equiv (f : Abs → Int) (t : List Ev) (s : Store) (x : Ref) (h : okTrace t = true)
+    (hx : Sep s x) :
+    (runTrace f t s x true).1.abs (runTrace f t s x true).2 =
+      (runTrace f t s x false).1.abs (runTrace f t s x false).2 := by
+  obtain ⟨_, h2, h3, h4, _⟩ := okTrace_parts h
+  exact runTrace_equiv f x t (s, x) (s, x) h2 h3 h4 hx hx rfl
+
+/-- **The premise is necessary (equivalence).**  `f(x, …, inplace=inplace)` with the result thrown away, after the
+copy guard: with `inplace=True` the callee edits `x`, without it the callee edits a second copy that nobody keeps —
+for every separated receiver with a node table the two end states differ (for the always-changing write `bump`). -/
+theorem lostDelegate_breaks_equiv (s : Store) (x : Ref) (hx : Sep s x) (hn : (s.obj x).nodes ≠ none) :
+    (runTrace bump [.guard, .lostDelegate] s x true).1.abs (runTrace bump [.guard, .lostDelegate] s x true).2 ≠
+      (runTrace bump [.guard, .lostDelegate] s x false).1.abs (runTrace bump [.guard, .lostDelegate] s x false).2 ∧
+    okTrace [.guard, .lostDelegate] = false :=
+  ⟨lostDelegate_differs hx hn, by decide⟩
 
 /-- **The generated table.** Every function under `navis/` that takes `inplace` (and every arithmetic dunder
 taking `copy`) has, in the *current* source, its copy guard (or a delegation to another function of the table)
@@ -240,6 +283,89 @@ theorem guarded_frame (f : Abs → Int) (s : Store) (x : Ref) :
   have := all_guarded (e.1, okTrace e.2) (by
     unfold inplaceSpec; exact List.mem_map.mpr ⟨e, he, rfl⟩)
   exact this
+
+/-- … hands back a fresh object whenever it copies by itself … -/
+theorem guarded_fresh (f : Abs → Int) (s : Store) (x : Ref) (hx : x < s.objs.length) :
+    ∀ e ∈ inplaceTraces, e.2.contains .guard = true → (runTrace f e.2 s x false).2 ≠ x := by
+  intro e he hg
+  have := all_guarded (e.1, okTrace e.2) (by
+    unfold inplaceSpec; exact List.mem_map.mpr ⟨e, he, rfl⟩)
+  exact (okTrace_result_fresh f e.2 s x this hg).2 hx
+
+/-- … and ends, in place, in the state of the object the non-inplace call hands back. -/
+theorem guarded_equiv (f : Abs → Int) (s : Store) (x : Ref) (hx : Sep s x) :
+    ∀ e ∈ inplaceTraces, (runTrace f e.2 s x true).1.abs (runTrace f e.2 s x true).2 =
+      (runTrace f e.2 s x false).1.abs (runTrace f e.2 s x false).2 := by
+  intro e he
+  have := all_guarded (e.1, okTrace e.2) (by
+    unfold inplaceSpec; exact List.mem_map.mpr ⟨e, he, rfl⟩)
+  exact okTrace_inplace_equiv f e.2 s x this hx
+
+/-! ## 6b. functions WITHOUT an `inplace` flag: what they may leave behind in their input -/
+
+/-- **The annotation whitelist, per function and per column, against the source.**  Every write through the first
+parameter that the translator finds in a public function taking no `inplace` / `copy` flag (183 functions scanned in the
+baseline) is a documented annotation of that very function (`documented`: one node-table column per analysis function,
+`compartment` / `fragment` under the documented `label(s)_only` option), an `open` defect of known_findings/C03.json
+(`knownDefects`), or a write into caller-built records that are not neurons (`notANeuron`).  `decide` over the complete
+generated list: a new write to an input anywhere in the catalogue makes this theorem fail; a repaired defect does not. -/
+theorem input_writes_whitelisted : ∀ w ∈ Navis.Gen.InputWrites.inputWrites, Navis.InputWrites.allowed w = true := by decide
+
+/-- the scan is not vacuous: it covers the catalogue -/
+theorem input_writes_scan_size : 150 ≤ Navis.Gen.InputWrites.scannedFunctions := by decide
+
+/-- Each analysis function documents exactly ONE node-table column (plus, for `synapse_flow_centrality`, the bookkeeping
+attribute naming the method); `break_fragments` documents one column for skeletons and one attribute for meshes. -/
+theorem one_annotation_per_function :
+    ∀ key ∈ (Navis.InputWrites.documented.map (·.1)).eraseDups,
+      (Navis.InputWrites.annotationsOf key "col").length ≤ 1 := by decide
+
+/-! ## 6c. how deep `copy()` copies: tags, cached segment lists, list members -/
+
+open Navis.HeapDeep in
+/-- **no_leak for two-level attributes copied two levels deep.**  After `{k: copy.copy(v) for k, v in outer.items()}` every
+later edit made through the copy's outer container — in-place edits of any inner container, new inner containers, deleted
+ones, in any number and order — leaves every cell of the old store unchanged; the copy starts with the same content. -/
+theorem deep1_no_leak (s : Navis.HeapDeep.Store) (r : Nat) (es : List Edit) :
+    (applyEdits (deep1 s r).1 (deep1 s r).2 es).take s.length = s ∧ absOf (deep1 s r).1 (deep1 s r).2 = absOf s r := by
+  refine ⟨?_, absOf_deep1 s r⟩
+  rw [applyEdits_own es (deep1_own s r), deep1_take]
+
+open Navis.HeapDeep in
+/-- … hence the input's observable content (the contents of its inner containers) is what it was. -/
+theorem deep1_input_unchanged (s : Navis.HeapDeep.Store) (r : Nat) (es : List Edit) (hw : wfB s r = true) :
+    absOf (applyEdits (deep1 s r).1 (deep1 s r).2 es) r = absOf s r :=
+  absOf_of_take (deep1_no_leak s r es).1 hw
+
+open Navis.HeapDeep in
+/-- **a one-level copy of a two-level attribute leaks** (`copy.copy` of a dict of lists / a list of arrays): one in-place
+edit of an inner container of the copy changes the input's observable content.  This was the shared-tag-lists defect
+(repaired) and still is the situation of the cached `_segments` / `_small_segments` lists (open finding). -/
+theorem shallow_copy_leaks (s : Navis.HeapDeep.Store) (r i k : Nat) (v : Int) (hw : wfB s r = true)
+    (hk : (kidsOf s r)[i]? = some k) (hv : leafVal s k ≠ v) :
+    absOf (wrInner (shallow s r).1 (shallow s r).2 i v) r ≠ absOf s r :=
+  shallow_leaks s r i k v hw hk hv
+
+/-- **The generated table: `TreeNeuron.copy` copies `tags` two levels deep** in the current source (the element-wise
+`{k: copy.copy(v) …}` after the generic shallow copy).  Removing it makes this theorem fail. -/
+theorem tags_copied_two_levels :
+    ∀ e ∈ Navis.Gen.CopySpec.nestedMode, e.2.1 = "tags" → e.2.2 = Navis.HeapDeep.CopyMode.deep1 := by decide
+
+open Navis.HeapDeep in
+/-- Hence edits of the result's tag dictionary and tag lists never reach the input's tags. -/
+theorem tags_no_leak (s : Navis.HeapDeep.Store) (r : Nat) (es : List Edit) :
+    ∀ e ∈ Navis.Gen.CopySpec.nestedMode, e.2.1 = "tags" →
+      (applyEdits (copyWith e.2.2 s r).1 (copyWith e.2.2 s r).2 es).take s.length = s := by
+  intro e he ht
+  rw [tags_copied_two_levels e he ht]
+  exact (deep1_no_leak s r es).1
+
+/-- **Every `copy()` method copies every attribute** (applies `copy.copy` / `copy.deepcopy` / the function chosen by the
+`deepcopy` flag to each value of `__dict__`; no attribute object is handed to the copy as is), never copies `_lock`, and
+`NeuronList.copy` copies every member: the premises `copyObj` = fresh containers and `lock := 0` of the heap model. -/
+theorem copy_methods_copy_every_attribute :
+    (∀ e ∈ Navis.Gen.CopySpec.copyMethods, e.2.1 ∈ ["copy.copy", "copy.deepcopy", "copy_fn"] ∧ "_lock" ∈ e.2.2.1) ∧
+    Navis.Gen.CopySpec.listCopiesMembers = true ∧ 5 ≤ Navis.Gen.CopySpec.copyMethods.length := by decide
 
 /-! ## 7. the run-time checkers the driver evaluates -/
 
@@ -274,6 +400,13 @@ example : frameB s0 (badCall [.wr .nodes bump] [] s0 0 false).1 0 = false := by 
 example : frameB s0 (call [.wr .nodes bump] s0 0 false).1 0 = true := by decide
 example : okTrace [.write, .branch, .guard] = false ∧ okTrace [.branch, .guard, .write] = true := by decide
 example : okTrace [.branch, .guard, .writeIn] = false ∧ okTrace [] = false := by decide
+/-- seeded change C03_3 (early `return x` before the guard) and C03_4 (discarded `subset_neuron(x, …, inplace=inplace)`) -/
+example : okTrace [.retIn] = false ∧ okTrace [.branch, .guard, .write, .lostDelegate] = false := by decide
+example : (runTrace bump [.retIn] s0 0 false).2 = 0 ∧ (runTrace bump [.branch, .guard, .write] s0 0 false).2 = 1 := by decide
+example : (runTrace bump [.guard, .lostDelegate] s0 0 true).1.abs 0 ≠
+    (runTrace bump [.guard, .lostDelegate] s0 0 false).1.abs (runTrace bump [.guard, .lostDelegate] s0 0 false).2 := by decide
+example : (runTrace bump [.branch, .guard, .write] s0 0 true).1.abs 0 =
+    (runTrace bump [.branch, .guard, .write] s0 0 false).1.abs 1 := by decide
 
 /-- **Negative witness 2 (aliasing).** Editing the networkx graph of the copy in place, without thawing the view
 first, reaches the input's graph; with the thaw it does not. -/
@@ -320,5 +453,16 @@ example : 50 ≤ inplaceSpec.length := by decide
 example : ("morpho/manipulation.py:prune_by_strahler", true) ∈ inplaceSpec ∧
     ("core/skeleton.py:TreeNeuron.__mul__", true) ∈ inplaceSpec ∧
     ("graph/graph_utils.py:reroot_skeleton", true) ∈ inplaceSpec := by decide
+
+/-- two-level containers: a tag dictionary with two lists; deep copy frames, shallow copy leaks -/
+def d0 : Navis.HeapDeep.Store := [.leaf 3, .leaf 5, .node [0, 1]]
+
+example : Navis.HeapDeep.wfB d0 2 = true := by decide
+example : Navis.HeapDeep.frameB d0 (Navis.HeapDeep.applyEdits (Navis.HeapDeep.deep1 d0 2).1 (Navis.HeapDeep.deep1 d0 2).2
+    [.inner 0 9, .add 4, .del 1, .inner 1 7]) = true := by decide
+example : Navis.HeapDeep.absOf (Navis.HeapDeep.wrInner (Navis.HeapDeep.shallow d0 2).1 (Navis.HeapDeep.shallow d0 2).2 0 9) 2
+    = [9, 5] ∧ Navis.HeapDeep.absOf d0 2 = [3, 5] := by decide
+example : ("morpho/mmetrics.py:strahler_index", "col", "strahler_index") ∈ Navis.Gen.InputWrites.inputWrites := by decide
+example : Navis.InputWrites.allowed ("morpho/mmetrics.py:strahler_index", "col", "radius") = false := by decide
 
 end Navis.Props.C03
